@@ -285,7 +285,19 @@ def o_bloom(case):
         kind = op[0]
         if kind == "item":
             item = bytes.fromhex(op[1])
-            f.add_item(item)
+            # the element arrives as plain bytes or as one of the library's own bytes subclasses (what Tx.hash(),
+            # double_sha256() and parsed outpoints hand out): same bytes, same filter bits
+            form = (len(item) + step) % 4
+            if form == 1:
+                from pycoin.encoding.hexbytes import bytes_as_revhex
+                f.add_item(bytes_as_revhex(item))
+                labels.add("item-as=bytes_as_revhex")
+            elif form == 2:
+                from pycoin.encoding.hexbytes import bytes_as_hex
+                f.add_item(bytes_as_hex(item))
+                labels.add("item-as=bytes_as_hex")
+            else:
+                f.add_item(item)
         elif kind == "collide":
             # a different element whose MurmurHash3 value under one of the filter's hash functions equals that of the
             # previously added element (constructed, not searched for): its other bit positions still have to be set
